@@ -515,6 +515,32 @@ pub fn run(args: &Args) {
         }}}}
     });
 
+    // (2d) the same with TWO media sections (audio + video): BUNDLE decision of offer and answer for mixed
+    // compatibility modes (the `!LegacySip` conjunct of the answer's `will_bundle`, audit r2-D1) and the
+    // per-section RTCP socket of every non-first non-BUNDLE section (the offer arm of the per-section
+    // `needs_rtcp`, audit r2-D2): `a=group:BUNDLE`, and per section `a=rtcp-mux` / `a=rtcp` (Rtp mode writes
+    // `a=rtcp` exactly when the section does not multiplex and its transport bound an RTCP socket)
+    rt.block_on(async {
+        for mo in [true, false] { for lo in [false, true] { for ma in [true, false] { for la in [false, true] {
+            let mk = |mux: bool, legacy: bool| { let c = Cfg { mode: Mode::Rtp, mix: Mix::AudioVideo, bundle: 0, mux_require: mux, ice: IceOpt::Full, latching: false, legacy, p_offers: true }; PeerConnection::new(rtc_config(&c, true, &Knobs::default())) };
+            let (o, a) = (mk(mo, lo), mk(ma, la));
+            for pc in [&o, &a] { pc.add_transceiver(MediaKind::Audio, rustrtc::TransceiverDirection::SendRecv); pc.add_transceiver(MediaKind::Video, rustrtc::TransceiverDirection::SendRecv); }
+            let r: Result<String, String> = async {
+                let offer = o.create_offer().await.map_err(|e| e.to_string())?;
+                o.set_local_description(offer.clone()).map_err(|e| e.to_string())?;
+                a.set_remote_description(offer.clone()).await.map_err(|e| e.to_string())?;
+                let answer = a.create_answer().await.map_err(|e| e.to_string())?;
+                let grp = |d: &SessionDescription| d.session.attributes.iter().any(|x| x.key == "group" && x.value.as_deref().is_some_and(|v| v.starts_with("BUNDLE"))) as u8;
+                let per = |d: &SessionDescription, k: &str| d.media_sections.iter().map(|m| if m.attributes.iter().any(|x| x.key == k) { '1' } else { '0' }).collect::<String>();
+                let ports = |d: &SessionDescription| { let v: Vec<u16> = d.media_sections.iter().map(|m| m.port).collect(); (v.len() == 2 && v[0] == v[1]) as u8 };
+                Ok(format!("grp={}/{} sameport={}/{} mux={}/{} rtcp={}/{}", grp(&offer), grp(&answer), ports(&offer), ports(&answer), per(&offer, "rtcp-mux"), per(&answer, "rtcp-mux"), per(&offer, "rtcp"), per(&answer, "rtcp")))
+            }.await;
+            let out = r.unwrap_or_else(|e| format!("err:{e}"));
+            run.case("muxsdp2", &format!("{} {} {} {}", mo as u8, lo as u8, ma as u8, la as u8), &out, mo != ma || lo != la);
+            o.close(); a.close();
+        }}}}
+    });
+
     // (3) pure helpers through hooks
     {
         let ip: std::net::IpAddr = "10.0.0.1".parse().unwrap();
